@@ -624,6 +624,14 @@ class CallMixin(ExprMixin):
         top = self.top_ctx if self.top_ctx is not None else ctx
         if top.contract is None:
             return
+        # env ghost_capture {callee: {ghost name: expr}}: ghost locals of the function under verification bound to the value of an
+        # expression in the state right after that call returned (lets a postcondition speak about an intermediate state)
+        caps = top.contract.env.get("ghost_capture", {}).get(fi.qualname) or top.contract.env.get("ghost_capture", {}).get(fi.name)
+        if caps:
+            cctx = top.sub(spec=True)
+            cctx.specials["result"] = res
+            for gname, expr in caps.items():
+                st.heap[top.frame.oid][gname] = ops.lift(self.eval1(ast.parse(expr, mode="eval").body, st, cctx))
         hints = top.contract.env.get("call_hints", {}).get(fi.qualname) or top.contract.env.get("call_hints", {}).get(fi.name)
         if not hints:
             return
